@@ -10,7 +10,7 @@ CLAUSES = {
     "step2time": "step2time(n) == start +/- n dt",
     "time2step-inverse": "time2step(start +/- n dt) == n and step2time(time2step(t)) == t on step boundaries; floor in between",
     "isotime": "step2isotime(n) is the ISO text of start +/- n dt",
-    "nctime": "nctime()/step2nctime(n, unit) == (time - reference)/unit for s, m, h",
+    "nctime": "nctime()/step2nctime(n, unit) == (time - reference)/unit for s, m, h, d",
     "cf-units": "cf_units(unit) names the unit and the reference time",
     "reject": "missing start/stop/dt and stop on the wrong side of start end in SystemExit",
     "output-time": "the time coordinate of every output record is (record's model time - reference) in the unit named by its units attribute, whatever start, reference, period, direction and skip_initial",
@@ -23,8 +23,7 @@ BOUNDS = {
     "thorough": "as quick plus dt in {2, 3, 5, 11, 13, 86400, 100000} and a symbolic dt in 1..12",
 }
 ASSUMES = ["times within +-1e10 s of the epoch (datetime64[s] range used in practice); the epoch itself included (numpy's datetime64(0) is falsy)"]
-OUTSIDE = ("digit-count dependent formatting (zero padding) of symbolic numerals; the 'd' entry of unit_table (numpy has no 'd' unit: nctime('d') raises TypeError; "
-           "only s, m, h are demanded); leap seconds (numpy has none)")
+OUTSIDE = "digit-count dependent formatting (zero padding) of symbolic numerals; leap seconds (numpy has none)"
 BIG = 10 ** 10
 
 
@@ -89,12 +88,12 @@ def clock(W, p):
     W.prove(W.eq(W.sec_of(timer.step2time(timer.time2step(t_n))), W.sec_of(t_n)), "time2step-inverse", dict(part="step2time(time2step(t)) == t"))
     iso = timer.step2isotime(n)
     W.prove(W.eq(W.sec_of(_parse_time(W, iso)), start + sgn * n * dt), "isotime")
-    for unit, usec in (("s", 1), ("m", 60), ("h", 3600)):
+    for unit, usec in (("s", 1), ("m", 60), ("h", 3600), ("d", 86400)):
         W.prove(W.eq(timer.step2nctime(n, unit) * usec, start + sgn * n * dt - ref), "nctime")
         W.prove(W.eq(timer.nctime(unit) * usec, W.sec_of(timer.time) - ref), "nctime")
         cu = timer.cf_units(unit)
         name, _, reft = cu.partition(" since ")
-        W.prove(name == dict(s="seconds", m="minutes", h="hours")[unit] and W.truth(W.eq(W.sec_of(_parse_time(W, reft)), ref)), "cf-units")
+        W.prove(name == dict(s="seconds", m="minutes", h="hours", d="days")[unit] and W.truth(W.eq(W.sec_of(_parse_time(W, reft)), ref)), "cf-units")
     W.prove(W.eq(timer.step2nctime(n), start + sgn * n * dt - ref), "nctime")
     return ("clock", dt, rev)
 
